@@ -11,7 +11,7 @@ GUARDS = ["GStrictBefore", "GEstBlocks", "GValEst", "GValVersion", "GValStorage"
           "GCommitOrder", "GHeadOnly", "GNotifyFin", "GNotifyCom", "GNotifyBatch", "GNotifyCancel", "GKeyLive",
           "GCommitRelease", "GFallbackStart", "GHeadAtStart", "GResetMasks", "GCreatedWins", "GNonceReplay"]
 SAFETY = ["TypeOK", "CommitMatchesRef", "CommittedIsPrefix", "CommittedReadsFresh", "FinalOk", "FinalityFresh"]
-TRACE_INVS = ["TypeOK", "CommittedReadsFresh", "FinalityFresh", "CommitMatchesRef"]
+TRACE_INVS = ["TypeOK", "CommittedReadsFresh", "FinalityFresh", "CommitMatchesRef", "FinalOk"]
 WITNESS_DIR = os.path.join(SPEC, "witness")
 
 
@@ -121,7 +121,7 @@ def witness(ctx, guard, block, invariants=("CommitMatchesRef", "CommittedReadsFr
     r = mc(ctx, [block], f"wit_{guard}_{block}", off=(guard,), invariants=invariants, expect="any", timeout=timeout,
            dump=dump, workers=workers, sketch=sketch)
     w = {"guard": guard, "block": block, "found": not r["ok"], "invariant": r["invariant"] or r["violation"],
-         "depth": len(r["trace_actions"]), "distinct_states": r["distinct"], "guide": []}
+         "depth": len(r["trace_actions"]), "distinct_states": r["distinct"], "guide": [], "sketch": sketch}
     if not r["ok"] and os.path.exists(dump):
         w["guide"] = guide_from_dump(dump)
     with open(cache, "w") as f:
@@ -140,7 +140,7 @@ def goal(ctx, name, block, timeout=1500, regenerate=False, workers=2):
     dump = ctx.path(f"dump_goal_{name}_{block}.json")
     r = mc(ctx, [block], f"goal_{name}_{block}", invariants=(f"NotReach_{name}",), expect="any", timeout=timeout, dump=dump, workers=workers)
     w = {"guard": "goal_" + name, "block": block, "found": not r["ok"], "invariant": r["invariant"] or r["violation"],
-         "depth": len(r["trace_actions"]), "distinct_states": r["distinct"], "guide": [], "sketch": sketch}
+         "depth": len(r["trace_actions"]), "distinct_states": r["distinct"], "guide": []}
     if not r["ok"] and os.path.exists(dump):
         w["guide"] = guide_from_dump(dump)
     with open(cache, "w") as f:
@@ -255,3 +255,37 @@ def lifecycle(ctx, prop, quick):
         ctx.violation(f"{prop}: {v['what']}", {"kind": "lifecycle", "case": v["case"], "step": v["step"]})
     if len(ctx.samples) < 3:
         ctx.samples.append(h["sample"])
+
+
+def sharded(ctx, args, shards, timeout=6000):
+    """Run one `vh sched` job per shard of the scenario list concurrently (the harness runs one schedule at a time;
+    independent blocks can be explored side by side) and merge the results."""
+    from concurrent.futures import ThreadPoolExecutor
+    scn = args["scenarios"]
+    shards = max(1, min(shards, len(scn)))
+    parts = [scn[k::shards] for k in range(shards)]
+    base, ext = os.path.splitext(args["out"])
+
+    def one(k):
+        a = dict(args, scenarios=parts[k], out=f"{base}_{k}{ext}")
+        argfile = ctx.path(f"vh_shard_{os.path.basename(base)}_{k}.json")
+        with open(argfile, "w") as f:
+            json.dump(a, f)
+        import subprocess
+        from common import VH
+        p = subprocess.run([VH, "sched", "@" + argfile], stdout=subprocess.PIPE, stderr=subprocess.PIPE, text=True, timeout=timeout)
+        if p.returncode != 0:
+            raise ToolError(f"harness sched (shard {k}) failed rc={p.returncode}: {p.stderr[-1500:]}")
+        return json.loads(p.stdout.strip().splitlines()[-1])
+
+    with ThreadPoolExecutor(max_workers=shards) as ex:
+        rs = list(ex.map(one, range(shards)))
+    merged = {"scenarios": [], "violations": [], "trace_runs": 0, "trace_events": 0}
+    for r in rs:
+        merged["scenarios"] += r["scenarios"]
+        merged["violations"] += r["violations"]
+        merged["trace_runs"] += r["trace_runs"]
+        merged["trace_events"] += r["trace_events"]
+        if "fatal" in r and "fatal" not in merged:
+            merged["fatal"] = r["fatal"]
+    return merged
